@@ -316,14 +316,24 @@ class smrt_matrix(object):
     def __truediv__(self, other):
         return smrt_matrix(self.values / other)
 
+    def _same_layout(self, other):
+        # return the two matrices in a common layout, so that their values can be combined elementwise
+        if self.mtype == other.mtype or "0" in (self.mtype, other.mtype):
+            return self, other
+        if {self.mtype, other.mtype} in ({"diagonal4", "dense4"}, {"diagonal5", "dense5"}):
+            return self.to_dense(), other.to_dense()
+        raise NotImplementedError("Operation between '%s' and '%s' matrices is not implemented" % (self.mtype, other.mtype))
+
     def __add__(self, other):
         if isinstance(other, smrt_matrix):
+            self, other = self._same_layout(other)
             return smrt_matrix(other.values + self.values)
         else:
             raise NotImplementedError
 
     def __sub__(self, other):
         if isinstance(other, smrt_matrix):
+            self, other = self._same_layout(other)
             return smrt_matrix(self.values - other.values)
         else:
             raise NotImplementedError
